@@ -5,6 +5,7 @@ import Arc.Model.C13Current
     tree <n> <path> <hex> … (n pairs, any order)                          → ok n=<n>
     backup inc=<mc> mf=<0|1> sf=<0|1> cf=<0|1> r=<p,p|-> w=<p:pre,p:<k>|->  → completed … | failed:<class>
     restore into=<empty|orig> opts=<dmc> mf= sf= cf= r=<…> w=<…>          → completed … | failed:<class> …
+    each fault list is followed by rt=<p:n:d,…> wt=<p:n:pre|k,…> (TRANSIENT: first n attempts fail)
     (inc / opts are bit strings: metadata,config / data,metadata,config; sf/cf = SQLite / arc.toml step fails)
 -/
 open Arc.Proto Arc.C13
@@ -39,14 +40,30 @@ def parseWrite (s : String) : Option (Path × Option Nat) :=
   | [p, k] => (nat? k).map fun k => (p.toList, some k)
   | _ => none
 
-def parseFaults (mf sf cf r w : String) : Option Faults :=
-  match kv "mf" mf, kv "sf" sf, kv "cf" cf, kv "r" r, kv "w" w with
-  | some mf, some sf, some cf, some r, some w =>
-    match (parseList w).mapM parseWrite with
-    | some ws => some { manifest := mf == "1", sqlite := sf == "1", config := cf == "1",
-                        read := (parseList r).map String.toList, write := ws }
-    | none => none
-  | _, _, _, _, _ => none
+def parseReadT (s : String) : Option (Path × Nat × Nat) :=
+  match s.splitOn ":" with
+  | [p, n, d] => match nat? n, nat? d with
+    | some n, some d => some (p.toList, n, d)
+    | _, _ => none
+  | _ => none
+
+def parseWriteT (s : String) : Option (Path × Nat × Option Nat) :=
+  match s.splitOn ":" with
+  | [p, n, "pre"] => (nat? n).map fun n => (p.toList, n, none)
+  | [p, n, k] => match nat? n, nat? k with
+    | some n, some k => some (p.toList, n, some k)
+    | _, _ => none
+  | _ => none
+
+def parseFaults (mf sf cf r w rt wt : String) : Option Faults :=
+  match kv "mf" mf, kv "sf" sf, kv "cf" cf, kv "r" r, kv "w" w, kv "rt" rt, kv "wt" wt with
+  | some mf, some sf, some cf, some r, some w, some rt, some wt =>
+    match (parseList w).mapM parseWrite, (parseList rt).mapM parseReadT, (parseList wt).mapM parseWriteT with
+    | some ws, some rts, some wts =>
+      some { manifest := mf == "1", sqlite := sf == "1", config := cf == "1",
+             read := (parseList r).map String.toList, write := ws, readT := rts, writeT := wts }
+    | _, _, _ => none
+  | _, _, _, _, _, _, _ => none
 
 def bits (s : String) (n : Nat) : Option (List Bool) :=
   let cs := s.toList
@@ -69,8 +86,8 @@ def stepC13 (s : DS) (fs : List String) : DS × String :=
     | some n, some t =>
       if t.length == n then ({ s with tree := t }, s!"ok n={n}") else (s, "bad-op")
     | _, _ => (s, "bad-op")
-  | ["backup", inc, mf, sf, cf, r, w] =>
-    match (kv "inc" inc).bind (bits · 2), parseFaults mf sf cf r w with
+  | ["backup", inc, mf, sf, cf, r, w, rt, wt] =>
+    match (kv "inc" inc).bind (bits · 2), parseFaults mf sf cf r w rt wt with
     | some [im, ic], some f =>
       let bk := backupFull current { metadata := im, config := ic } f (walkSort s.tree)
       let out := match bk.status, bk.manifest with
@@ -84,8 +101,8 @@ def stepC13 (s : DS) (fs : List String) : DS × String :=
         | .completed, none => "failed:internal"
       ({ s with bk := bk }, out)
     | _, _ => (s, "bad-op")
-  | ["restore", into, opts, mf, sf, cf, r, w] =>
-    match kv "into" into, (kv "opts" opts).bind (bits · 3), parseFaults mf sf cf r w with
+  | ["restore", into, opts, mf, sf, cf, r, w, rt, wt] =>
+    match kv "into" into, (kv "opts" opts).bind (bits · 3), parseFaults mf sf cf r w rt wt with
     | some into, some [od, om, oc], some f =>
       if into != "empty" && into != "orig" then (s, "bad-op") else
       let d0 : Tree := if into == "orig" then s.tree else []
